@@ -169,7 +169,10 @@ func (r *runner) run(ctx context.Context, isStream bool, input any, opts ...Opti
 	}
 
 	// Extract CheckPointID
-	checkPointID, stateModifier := getCheckPointInfo(opts...)
+	checkPointID, stateModifier, cpErr := getCheckPointInfo(opts...)
+	if cpErr != nil {
+		return nil, newGraphRunError(cpErr)
+	}
 	if checkPointID != nil && r.checkPointer.store == nil {
 		return nil, newGraphRunError(fmt.Errorf("receive checkpoint id but have not set checkpoint store"))
 	}
@@ -636,16 +639,44 @@ func (r *runner) createTasks(ctx context.Context, nodeMap map[string]any, optMap
 	return nextTasks, nil
 }
 
-func getCheckPointInfo(opts ...Option) (checkPointID *string, stateModifier StateModifier) {
+func getCheckPointInfo(opts ...Option) (checkPointID *string, stateModifier StateModifier, err error) {
 	for _, opt := range opts {
 		if opt.checkPointID != nil {
+			if len(opt.paths) > 0 {
+				// the checkpoint of a run is written and read by the graph the call is made on
+				return nil, nil, errors.New("a checkpoint id cannot be designated to a node")
+			}
 			checkPointID = opt.checkPointID
 		}
 		if opt.stateModifier != nil {
 			stateModifier = opt.stateModifier
+			if len(opt.paths) > 0 {
+				// designated to (nested graph) nodes: it only sees the state of those graphs
+				inner, paths := opt.stateModifier, opt.paths
+				stateModifier = func(ctx context.Context, path NodePath, state any) error {
+					for _, p := range paths {
+						if p != nil && equalNodePath(p.path, path.path) {
+							return inner(ctx, path, state)
+						}
+					}
+					return nil
+				}
+			}
 		}
 	}
-	return checkPointID, stateModifier
+	return checkPointID, stateModifier, nil
+}
+
+func equalNodePath(a, b []string) bool {
+	if len(a) != len(b) {
+		return false
+	}
+	for i := range a {
+		if a[i] != b[i] {
+			return false
+		}
+	}
+	return true
 }
 
 func (r *runner) restoreTasks(ctx context.Context, inputs map[string]any, skipPreHandler map[string]bool, optMap map[string][]any) ([]*task, error) {
